@@ -65,3 +65,51 @@ theorem bankSend_some_iff (b : Bank) (src dst : Addr) (amt : Nat) :
   unfold bankSend; split <;> simp <;> omega
 
 end SM
+
+namespace SM
+
+theorem bankSend_le {b b' : Bank} {src dst : Addr} {amt : Nat} (h : bankSend b src dst amt = some b') :
+    amt ≤ balOf b.bal src := by
+  have := (bankSend_some_iff b src dst amt).mp (by rw [h]; rfl); exact this
+
+theorem bankSend_dst {b b' : Bank} {src dst : Addr} {amt : Nat} (h : bankSend b src dst amt = some b')
+    (hne : src ≠ dst) : balOf b'.bal dst = balOf b.bal dst + amt := by
+  rw [bankSend_bal h dst]; simp [hne]; intro e; exact absurd e.symm hne
+
+theorem bankSend_src {b b' : Bank} {src dst : Addr} {amt : Nat} (h : bankSend b src dst amt = some b')
+    (hne : src ≠ dst) : balOf b'.bal src = balOf b.bal src - amt := by
+  rw [bankSend_bal h src]; simp [hne]
+
+theorem bankSend_other {b b' : Bank} {src dst : Addr} {amt : Nat} (h : bankSend b src dst amt = some b')
+    (x : Addr) (h1 : x ≠ src) (h2 : x ≠ dst) : balOf b'.bal x = balOf b.bal x := by
+  rw [bankSend_bal h x]; simp [h1, h2]
+
+theorem bankBurn_bal {b b' : Bank} {a : Addr} {amt : Nat} (h : bankBurn b a amt = some b') (x : Addr) :
+    balOf b'.bal x = if x = a then balOf b.bal x - amt else balOf b.bal x := by
+  unfold bankBurn at h; split at h
+  · simp at h
+  · simp at h; subst h; simp only [balOf_set]
+    by_cases hx : a = x
+    · subst hx; simp
+    · have : ¬ x = a := fun e => hx e.symm
+      simp [hx, this]
+
+theorem bankBurn_le {b b' : Bank} {a : Addr} {amt : Nat} (h : bankBurn b a amt = some b') :
+    amt ≤ balOf b.bal a := by
+  unfold bankBurn at h; split at h
+  · simp at h
+  · omega
+
+theorem bankBurn_supply {b b' : Bank} {a : Addr} {amt : Nat} (h : bankBurn b a amt = some b') :
+    b'.supply = b.supply - amt := by
+  unfold bankBurn at h; split at h <;> simp at h; subst h; rfl
+
+theorem bankMint_bal (b : Bank) (a : Addr) (amt : Nat) (x : Addr) :
+    balOf (bankMint b a amt).bal x = if x = a then balOf b.bal x + amt else balOf b.bal x := by
+  unfold bankMint; simp only [balOf_set]
+  by_cases hx : a = x
+  · subst hx; simp
+  · have : ¬ x = a := fun e => hx e.symm
+    simp [hx, this]
+
+end SM
